@@ -365,6 +365,7 @@ class Gen:
             "poly": poly,
             "kind": rng.pick(["dense", "dense", "dense", "sparse", "sparse", "operator"]),
             "jac_all": rng.chance(0.6),
+            "cache": rng.pick(["SimpleCache"] * 5 + ["", "MemoryFullCache"]),
         }
         self.n_leaf += 1
         return {"t": "L", "spec": spec}
@@ -423,7 +424,7 @@ class Gen:
             for v in loc_avail:
                 if v not in avail:
                     avail.append(v)
-            return {"t": "C", "kids": kids}
+            return {"t": "C", "kids": kids, "cache": rng.pick(["SimpleCache"] * 5 + ["", "MemoryFullCache"])}
         if kind in ("P", "A"):
             n = rng.pick([1, 2, 2, 3, 3]) if kind == "P" else rng.pick([2, 2, 3])
             kids = []
@@ -459,6 +460,11 @@ class Gen:
             node = {"t": kind, "kids": kids}
             if kind == "A":
                 node["sums"] = sums
+            node["cache"] = rng.pick(["SimpleCache"] * 5 + ["", "MemoryFullCache"])
+            if rng.chance(0.3):
+                node["nproc"] = 1
+            if kind == "P" and rng.chance(0.3):
+                node["deep"] = True
             return node
         if kind == "M":
             n = rng.pick([2, 3, 3, 4])
@@ -528,7 +534,19 @@ def gen_case(rng: common.Rng, scope: bool = True, top: str | None = None) -> dic
                 r_in = []
             if case["reqs"] and rng.chance(0.15):
                 r_out = []
-            case["reqs"].append({"in": r_in, "out": r_out, "all": rng.chance(0.12), "point": dict(point)})
+            req = {"in": r_in, "out": r_out, "all": rng.chance(0.12), "point": dict(point)}
+            # the public ways of asking: explicit names, "all inputs"/"all outputs" (no argument),
+            # compute_all_jacobians; and of passing the point: fresh arrays, the SAME arrays updated in
+            # place, the default inputs, execute() first then linearize(execute=False)
+            r = rng.random()
+            if r < 0.10:
+                req["how"] = "all-in"
+                req["in"] = list(ins)
+            elif r < 0.20:
+                req["how"] = "all-out"
+                req["out"] = list(outs)
+            req["call"] = rng.pick(["point", "point", "point", "inplace", "inplace", "defaults", "exec-first"])
+            case["reqs"].append(req)
         if exact_ok(case):
             return case
     raise RuntimeError("generator could not produce an exact in-scope case")
@@ -573,6 +591,13 @@ def case_line(case, structure=None, alg: str = "new") -> str:
 # =========================================================================== implementation runner
 
 
+def _set_cache(obj, name: str) -> None:
+    if name == "MemoryFullCache":
+        obj.set_cache(obj.CacheType(name), is_memory_shared=False)
+    elif name != "SimpleCache":
+        obj.set_cache(obj.CacheType(name))
+
+
 def build(node, made):
     """Real GEMSEO objects for a process tree; `made` collects the PolyDisc objects (leaf order)."""
     from gemseo.core.chains.additive_chain import MDOAdditiveChain
@@ -582,8 +607,13 @@ def build(node, made):
     from harness.c09_disc import PolyDisc
 
     t = node["t"]
+    if t != "L" and "_nocache" not in node:
+        obj = build({**node, "_nocache": True}, made)
+        _set_cache(obj, node.get("cache", "SimpleCache"))
+        return obj
     if t == "L":
         d = PolyDisc(node["spec"])
+        _set_cache(d, node["spec"].get("cache", "SimpleCache"))
         made[id(node)] = d
         return d
     if t == "M":
@@ -600,8 +630,8 @@ def build(node, made):
     if t == "C":
         return MDOChain(kids)
     if t == "P":
-        return MDOParallelChain(kids)
-    return MDOAdditiveChain(kids, list(node["sums"]))
+        return MDOParallelChain(kids, n_processes=node.get("nproc"), use_deep_copy=bool(node.get("deep")))
+    return MDOAdditiveChain(kids, list(node["sums"]), n_processes=node.get("nproc"))
 
 
 def observed_structure(node, obj, made):
@@ -667,6 +697,7 @@ def impl_run(case) -> dict[str, Any]:
     res["grammar_out"] = sorted(n for n in obj.io.output_grammar if n in case["sizes"])
     cum_in: list[str] = []
     cum_out: list[str] = []
+    shared: dict[str, Any] = {}
     for req in case["reqs"]:
         for d in order:
             d.calls.clear()
@@ -683,13 +714,37 @@ def impl_run(case) -> dict[str, Any]:
             res["steps"].append(step)
             continue
         point = {n: np.array([float(Fraction(v)) for v in vals]) for n, vals in req["point"].items()}
+        call = req.get("call", "point")
+        how = req.get("how", "names")
         try:
           with contextlib.redirect_stderr(io.StringIO()):  # worker threads print their tracebacks
-            if req["in"]:
+            if how == "all-in":
+                obj.add_differentiated_inputs()
+            elif req["in"]:
                 obj.add_differentiated_inputs(list(req["in"]))
-            if req["out"]:
+            if how == "all-out":
+                obj.add_differentiated_outputs()
+            elif req["out"]:
                 obj.add_differentiated_outputs(list(req["out"]))
-            jac = obj.linearize(point, compute_all_jacobians=bool(req["all"]))
+            if call == "inplace":
+                # the caller keeps ONE dictionary of arrays and updates the arrays in place
+                for n, arr in point.items():
+                    if n in shared:
+                        shared[n].flags.writeable = True
+                        shared[n][:] = arr
+                    else:
+                        shared[n] = arr
+                jac = obj.linearize(shared, compute_all_jacobians=bool(req["all"]))
+            elif call == "defaults":
+                obj.default_input_data.update(point)
+                jac = obj.linearize(compute_all_jacobians=bool(req["all"]))
+            elif call == "exec-first":
+                obj.execute(point)
+                jac = obj.linearize(point, compute_all_jacobians=bool(req["all"]), execute=False)
+            else:
+                jac = obj.linearize(point, compute_all_jacobians=bool(req["all"]))
+            if jac is not obj.jac:
+                raise AssertionError("linearize did not return the jac attribute")
           if True:
             blocks = {}
             for o, x in step["pairs"]:
@@ -821,6 +876,10 @@ def _valid(case, scope=True) -> bool:
                 return False
             if set(r["point"]) != set(ins):
                 return False
+            if r.get("how") == "all-in" and set(r["in"]) != set(ins):
+                return False
+            if r.get("how") == "all-out" and set(r["out"]) != set(outs):
+                return False
         for l in leaves(proc):
             if not l["spec"]["outs"] or not l["spec"]["ins"]:
                 return False
@@ -854,8 +913,8 @@ def _fix_points(case):
     case["sizes"] = {n: k for n, k in case["sizes"].items() if n in used}
     for r in case["reqs"]:
         r["point"] = {n: r["point"].get(n, ["0"] * case["sizes"][n])[: case["sizes"][n]] + ["0"] * max(0, case["sizes"][n] - len(r["point"].get(n, []))) for n in ins}
-        r["in"] = [n for n in r["in"] if n in ins]
-        r["out"] = [n for n in r["out"] if n in node_outs(case["proc"])]
+        r["in"] = list(ins) if r.get("how") == "all-in" else [n for n in r["in"] if n in ins]
+        r["out"] = list(node_outs(case["proc"])) if r.get("how") == "all-out" else [n for n in r["out"] if n in node_outs(case["proc"])]
 
 
 def shrink_candidates(case):
@@ -875,6 +934,11 @@ def shrink_candidates(case):
         if r["all"]:
             c = copy.deepcopy(case)
             c["reqs"][i]["all"] = False
+            yield c
+        if r.get("call", "point") != "point" or r.get("how"):
+            c = copy.deepcopy(case)
+            c["reqs"][i]["call"] = "point"
+            c["reqs"][i].pop("how", None)
             yield c
     # drop a child / hoist a nested node's children / replace a nested node by one child
     nodes = list(_all_nodes(case["proc"]))
@@ -935,6 +999,10 @@ def shrink_candidates(case):
                         c = copy.deepcopy(case)
                         del list(leaves(c["proc"]))[li]["spec"]["poly"][o][ci][fld][j]
                         yield c
+        if spec.get("cache", "SimpleCache") != "SimpleCache":
+            c = copy.deepcopy(case)
+            list(leaves(c["proc"]))[li]["spec"]["cache"] = "SimpleCache"
+            yield c
         if spec.get("kind") != "dense" or not spec.get("jac_all", True):
             c = copy.deepcopy(case)
             s = list(leaves(c["proc"]))[li]["spec"]
@@ -1099,10 +1167,22 @@ def features(case) -> list[str]:
         if {n for n, _ in l["spec"]["ins"]} & {n for n, _ in l["spec"]["outs"]}:
             f.append("self-overwrite")
         f.append("kind=" + l["spec"]["kind"])
+        f.append("cache=" + (l["spec"].get("cache", "SimpleCache") or "none"))
     if any(v > 1 for v in writers.values()):
         f.append("var-written-twice")
     if any(r["all"] for r in case["reqs"]):
         f.append("compute-all")
+    for r in case["reqs"]:
+        f.append("call=" + r.get("call", "point"))
+        if r.get("how"):
+            f.append("how=" + r["how"])
+    for n in _all_nodes(case["proc"]):
+        if n["t"] != "L" and n.get("cache", "SimpleCache") != "SimpleCache":
+            f.append("process-cache=" + (n["cache"] or "none"))
+        if n.get("deep"):
+            f.append("parallel:use_deep_copy")
+        if n.get("nproc"):
+            f.append("parallel:n_processes=1")
     if len({json.dumps(r["point"], sort_keys=True) for r in case["reqs"]}) > 1:
         f.append("several-points")
     if any(s > 1 for s in case["sizes"].values()):
